@@ -54,3 +54,7 @@ claim("C04",
       "Bounded symbolic model checking of the risk-measure axioms on the real code: expected shortfall (N<=6, p grid): monotone, cash-invariant, convex at weights 1/2 and 1/3, positively homogeneous (incl. a symbolic scale), non-increasing in p, between -max and -min, >= -mean; entropic risk (symbolic a>0, N<=5, also a trailing shape): monotone, cash-invariant, bounds and >= -mean decided in exponential form with tangent-line hint instances; EntropicLoss/IsoelasticLoss monotone, EntropicLoss midpoint-convex (N=2); quadratic CVaR (bisect contract stub): cash-invariant and the bounds lowered by 1/(4 lam) on regular samples.",
       "Exact reals; N<=6; midpoint-type convexity (continuity lemma); not decided and not claimed: entropic-risk convexity, entropic monotone in a, IsoelasticLoss convexity, quadratic-CVaR monotonicity/convexity (stated in evidence).",
       "DESIGN.md §3 C04", SMT)
+claim("C06",
+      "Bounded symbolic model checking: for EntropicRiskMeasure, EntropicLoss and ExpectedShortfall the real cash() is proved to be the certainty equivalent (criterion of the constant sample equals criterion of the sample; exponential form for the entropic pair), between the worst and best outcome and <= the mean, with a symbolic target and per column; QuadraticCVaR.cash == -risk; the default search (IsoelasticLoss and a user subclass) is checked through the bisect contract stub including its call-site preconditions; Hedger.price is proved equal to minus the cash amount of (portfolio - payoff) on the same symbolic paths, averaged over n_times simulations, equal to the loss for the entropic risk measure, and shifted by exactly k by a payoff clause adding k.",
+      "Exact reals; N<=5, M<=2, T=3; open known findings F2 (constant sample raises ValueError) and F3 (multi-column default search) are reported as KNOWN-FINDING with the complementary regions still checked; cash <= mean for IsoelasticLoss not decided.",
+      "DESIGN.md §3 C06", SMT + " with an assume-guarantee contract stub for bisect")
